@@ -314,7 +314,22 @@ fn invalid_value_in(msg: &str) -> Option<&str> {
 }
 
 fn call(decl: &ArbDecl, bytes: &[u8]) -> CallResult {
-    let r = catch_unwind(AssertUnwindSafe(|| (decl.run)(bytes)));
+    call_entry(decl, bytes, false)
+}
+
+/// `rest`: through `arbitrary_take_rest` (same invariants; signatures get a `take_rest:` prefix).
+fn call_entry(decl: &ArbDecl, bytes: &[u8], rest: bool) -> CallResult {
+    let mut r = call_entry_raw(decl, bytes, rest);
+    if rest {
+        if let CallVerdict::Violation { signature, .. } = &mut r.verdict {
+            *signature = format!("take_rest:{signature}");
+        }
+    }
+    r
+}
+
+fn call_entry_raw(decl: &ArbDecl, bytes: &[u8], rest: bool) -> CallResult {
+    let r = catch_unwind(AssertUnwindSafe(|| (decl.run)(bytes, rest)));
     match r {
         Ok(ArbOutcome::Value { repr, valid, class, consumed }) => {
             let h = Fnv::of_str(&repr);
@@ -361,6 +376,31 @@ fn plan_json(decl: &ArbDecl, bytes: &[u8]) -> Value {
     json!({"decl": decl.name, "nutype": decl.text, "bytes_hex": hex(bytes), "len": bytes.len()})
 }
 
+fn plan_json_rest(decl: &ArbDecl, bytes: &[u8]) -> Value {
+    let mut p = plan_json(decl, bytes);
+    p["entry"] = json!("arbitrary_take_rest");
+    p
+}
+
+/// The second entry point of the derived impl on the same source: `arbitrary_take_rest`.
+fn check_take_rest(decl: &ArbDecl, bytes: &[u8], st: &mut Stats, tag: u64) {
+    let r = call_entry(decl, bytes, true);
+    st.evaluations += 1;
+    st.inc("calls.arbitrary_take_rest");
+    if let CallVerdict::Violation { invariant, signature, detail } = &r.verdict {
+        st.inc("outcome.violation_raw");
+        st.violation(Violation {
+            run_index: tag,
+            scenario: SCENARIO,
+            decl: decl.name.to_string(),
+            invariant: invariant.to_string(),
+            signature: signature.clone(),
+            detail: detail.clone(),
+            plan: plan_json_rest(decl, bytes),
+        });
+    }
+}
+
 // ---------------------------------------------------------------------------- one run
 
 fn is_loop_decl(d: &ArbDecl) -> bool {
@@ -394,6 +434,7 @@ fn run_one(seed: u64, run_index: u64, decls: &[ArbDecl], st: &mut Stats, ctx: &W
     log.str(decl.name);
     let full = ctx.guarded(|| plan_json(decl, &src.bytes), || call(decl, &src.bytes));
     let full_consumed = full.consumed;
+    ctx.guarded(|| plan_json_rest(decl, &src.bytes), || check_take_rest(decl, &src.bytes, st, run_index));
     let mut verdict_code = 0u8;
     for cut in 0..=src.bytes.len() {
         let bytes = &src.bytes[..cut];
@@ -479,7 +520,7 @@ fn find_decl<'a>(decls: &'a [ArbDecl], name: &str) -> Option<&'a ArbDecl> {
 }
 
 fn fails_same(decl: &ArbDecl, bytes: &[u8], sig: &str) -> Option<String> {
-    match call(decl, bytes).verdict {
+    match call_entry(decl, bytes, sig.starts_with("take_rest:")).verdict {
         CallVerdict::Violation { signature, detail, .. } if signature == sig => Some(detail),
         _ => None,
     }
@@ -534,7 +575,8 @@ fn minimise(decls: &[ArbDecl], v: &Violation) -> Violation {
             }
         }
     }
-    Violation { detail, plan: plan_json(decl, &bytes), ..v.clone() }
+    let plan = if v.signature.starts_with("take_rest:") { plan_json_rest(decl, &bytes) } else { plan_json(decl, &bytes) };
+    Violation { detail, plan, ..v.clone() }
 }
 
 // ---------------------------------------------------------------------------- modes
@@ -597,6 +639,7 @@ fn fixed_corpus(decls: &[ArbDecl], st: &mut Stats, ctx: &WorkerCtx, which: u64) 
         for len in 0..=64usize {
             let bytes: Vec<u8> = (0..len).map(f).collect();
             let r = ctx.guarded(|| plan_json(decl, &bytes), || call(decl, &bytes));
+            ctx.guarded(|| plan_json_rest(decl, &bytes), || check_take_rest(decl, &bytes, st, u64::MAX - which));
             st.evaluations += 1;
             st.steps += r.consumed as u64 + 1;
             st.inc("fixed_corpus_calls");
@@ -769,7 +812,8 @@ fn run_check(cfg: &Config) -> i32 {
         let Some(decl) = find_decl(&decls, &k.decl).or_else(|| find_decl(&plan_only, &k.decl)) else { continue };
         let bytes = unhex(k.plan["bytes_hex"].as_str().unwrap_or(""));
         stats.inc("known_finding_plans_executed");
-        match call(decl, &bytes).verdict {
+        let rest = k.plan["entry"].as_str() == Some("arbitrary_take_rest");
+        match call_entry(decl, &bytes, rest).verdict {
             CallVerdict::Violation { invariant, signature, detail } if signature == k.signature => {
                 stats.violation(Violation {
                     run_index: u64::MAX,
@@ -778,7 +822,7 @@ fn run_check(cfg: &Config) -> i32 {
                     invariant: invariant.to_string(),
                     signature,
                     detail,
-                    plan: plan_json(decl, &bytes),
+                    plan: if rest { plan_json_rest(decl, &bytes) } else { plan_json(decl, &bytes) },
                 });
             }
             _ => println!(
@@ -879,7 +923,8 @@ fn run_replay(cfg: &Config, path: &str) -> i32 {
     let want_sig = v["signature"].as_str().unwrap_or("").to_string();
     // The watchdog applies to replay as well (a recorded hang must hang again).
     let cfg2 = cfg.clone();
-    let plan = plan_json(decl, &bytes);
+    let rest = v["plan"]["entry"].as_str() == Some("arbitrary_take_rest");
+    let plan = if rest { plan_json_rest(decl, &bytes) } else { plan_json(decl, &bytes) };
     let want_hang = want_sig == "hang";
     let st = runner::run_sharded(
         1,
@@ -905,7 +950,7 @@ fn run_replay(cfg: &Config, path: &str) -> i32 {
                 });
                 return;
             }
-            let r = ctx.guarded(|| plan.clone(), || call(decl, &bytes));
+            let r = ctx.guarded(|| plan.clone(), || call_entry(decl, &bytes, rest));
             if let CallVerdict::Violation { invariant, signature, detail } = r.verdict {
                 st.violation(Violation {
                     run_index: 0,
